@@ -787,7 +787,33 @@ def defaults(run, verde, gen, rng, tier):
         chain = verde.Chain(steps)
         chain.fit(*weighted.args())
         chain.predict(weighted.coordinates)
+    mixed_weight_dtypes(run, verde, gen, rng, tier)
     run.count("workload:defaults_batches")
+
+
+def mixed_weight_dtypes(run, verde, gen, rng, tier):
+    """
+    Vector (fit, filter, as a Chain step) with a weights tuple whose components differ in dtype: integer or bool first and fractional
+    floats (values below 1) later, and the reverse; the same for the data components. Component i must get exactly weights[i], data[i].
+    """
+    for order in ("int_first", "float_first"):
+        ncomp = int(rng.choice([2, 3]))
+        prob = Problem(rng, gen, tier, ncomp=ncomp, weighted=False, hi=60, dtype_class="float64", int_coords=False, extra=False)
+        shape = np.shape(prob.data[0])
+        ints = [rng.integers(1, 6, shape).astype(str(rng.choice(["int64", "int32"]))), rng.random(shape) < 0.85]
+        integer = ints[int(rng.integers(0, 2))]
+        fractional = [rng.uniform(0.05, 0.95, shape) if rng.random() < 0.7 else rng.uniform(0.05, 3.0, shape) for _ in range(ncomp - 1)]
+        weights = tuple([integer] + fractional) if order == "int_first" else tuple(fractional + [integer])
+        rounded = np.round(prob.data[0] if order == "int_first" else prob.data[-1]).astype("int64")
+        data = ((rounded,) + tuple(prob.data[1:])) if order == "int_first" else (tuple(prob.data[:-1]) + (rounded,))
+        make = lambda: verde.Vector([verde.Trend(int(rng.integers(1, 3))) for _ in range(ncomp)])  # noqa: E731
+        vec = make()
+        vec.fit(prob.coordinates, data, weights)
+        vec.predict(prob.coordinates)
+        make().filter(prob.coordinates, data, weights)
+        chain = verde.Chain([("level", LevelStep()), ("vector", make()), ("vector", make())])
+        chain.fit(prob.coordinates, data, weights)
+        chain.predict(prob.coordinates)
 
 
 def large(run, verde, gen, rng, tier, index):
